@@ -184,11 +184,16 @@ def analyse_flow(seed):
             # class families: descriptor binding through inheritance (gen/descbind.py)
             src, info, feats = D.gen_program(rng)
             feats = ['desc:' + f for f in feats]
+        elif '-seg-' in seed:
+            # generator functions of top-level yields and simple for loops in any interleaving,
+            # unpacked position by position (gen/flowprog.py:gen_segprogram)
+            src, info, feats = F.gen_segprogram(rng)
         else:
             src, info, feats = F.gen_program(rng)
         res = analyse_source(src, info)
         res['features'] = feats
-        res['origin'] = 'generated:descbind' if '-desc-' in seed else 'generated'
+        res['origin'] = 'generated:descbind' if '-desc-' in seed else \
+            ('generated:yield-order' if '-seg-' in seed else 'generated')
         out.append(res)
         if _SHRUNK[0] < 1 and not info.get('selfnest') and _failing(res, 'missing') is not None:
             _SHRUNK[0] += 1
@@ -404,6 +409,7 @@ def start(ctx):
     while k < nd:
         seeds.append('%s-desc-%d' % (ctx.seed, k))
         k += 1
+    seeds += ['%s-seg-%d' % (ctx.seed, i) for i in range(ctx.size(50, 1500))]
     pool = ThreadPoolExecutor(2)
     items = corpus_items()
     return {'pool': pool,
@@ -414,7 +420,7 @@ def start(ctx):
 
 def finish(ctx, h):
     feats = {}
-    nprog = ndesc = 0
+    nprog = ndesc = nseg = 0
     for item, res in zip(h['items'], h['corpus'].result()):
         judge(ctx, res, 'corpus:' + str(item['name']))
     groups = h['gen'].result()
@@ -430,12 +436,15 @@ def finish(ctx, h):
             for f in res.get('features', []):
                 feats[f] = feats.get(f, 0) + 1
             ndesc += res.get('origin') == 'generated:descbind'
+            nseg += res.get('origin') == 'generated:yield-order'
             judge(ctx, res, res.get('origin', 'generated'))
     h['pool'].shutdown()
     ctx.hist.setdefault('flow-features', {}).update(feats)
     ctx.notes.append('flow: %d generated programs (%d of them class families of gen/descbind.py: descriptor '
-                     'binding through inheritance) (+%d corpus), executed and inferred at every reached probe'
-                     % (nprog, ndesc, len(h['items'])))
+                     'binding through inheritance, %d of gen/flowprog.py:gen_segprogram: generator functions of '
+                     'top-level yields and simple for loops in any interleaving, unpacked position by position) '
+                     '(+%d corpus), executed and inferred at every reached probe'
+                     % (nprog, ndesc, nseg, len(h['items'])))
     ctx.obligations.setdefault('assumptions', [])
     ctx.obligations['assumptions'] = list(ctx.obligations['assumptions']) + [
         'stream flow is oracle-only (no Lean model of loops / generators): CPython is the ground truth, the '
